@@ -44,6 +44,21 @@ var readOnly = map[string]bool{
 	"golang.org/x/crypto/pbkdf2.Key": true, // reads password and salt, returns a fresh slice
 }
 
+// isReadOnly: the function neither modifies nor retains memory reachable from its arguments.
+func isReadOnly(name string) bool {
+	if readOnly[name] {
+		return true
+	}
+	for _, pfx := range []string{"strings.", "unicode.", "unicode/utf8.", "strconv.", "errors.", "math.", "math/bits.", "slices.Contains", "slices.Index", "slices.Equal", "slices.BinarySearch",
+		"sort.SearchStrings", "sort.SearchInts", "sort.StringsAreSorted", "sort.IntsAreSorted", "sort.IsSorted", "bytes.Equal", "bytes.Compare", "bytes.Contains", "bytes.Index", "bytes.HasPrefix", "bytes.HasSuffix",
+		"fmt.Sprint", "fmt.Errorf", "fmt.Fprint", "fmt.Print", "encoding/hex.EncodeToString", "(golang.org/x/text/unicode/norm.Form)."} {
+		if strings.HasPrefix(name, pfx) {
+			return true
+		}
+	}
+	return false
+}
+
 func (e *Eval) call(fr *frame, x *ssa.Call, st State) AV {
 	cc := x.Common()
 	args := make([]AV, len(cc.Args))
@@ -319,6 +334,15 @@ func (e *Eval) model(fr *frame, x *ssa.Call, callee *ssa.Function, args []AV, st
 				if s, ok := args[1].(StrV); ok && s.Kind == skConst {
 					return ret(CStr(norm.NFKD.String(s.S)))
 				}
+				if s, ok := args[1].(StrV); ok && s.Kind == skJoin {
+					if sep, ok := s.Sep.(StrV); ok && sep.Kind == skConst && joinOfListWords(s.Arr) {
+						// NFKD of a join of NFKD-stable words (T5w) with a separator made of starters:
+						// the words are unchanged and only the separator is normalised
+						n := s
+						n.Sep = CStr(norm.NFKD.String(sep.S))
+						return ret(n)
+					}
+				}
 				return ret(StrV{Kind: skNFKD, X: args[1]})
 			}
 		}
@@ -375,7 +399,7 @@ func (e *Eval) model(fr *frame, x *ssa.Call, callee *ssa.Function, args []AV, st
 	if strings.HasSuffix(name, ".init") && len(args) == 0 {
 		return ret(TupleV{})
 	}
-	if !readOnly[name] {
+	if !isReadOnly(name) {
 		for _, a := range args {
 			e.escape(fr, st, a, "passed to "+name)
 		}
@@ -657,3 +681,18 @@ func (e *Eval) bigMethod(fr *frame, x *ssa.Call, m string, args []AV, st State) 
 }
 
 var _ = types.Typ
+
+
+// joinOfListWords: every element of the joined slice is an element of a package-level word list.
+func joinOfListWords(a *ArrC) bool {
+	if a == nil || a.Top != "" || len(a.Elems) == 0 {
+		return false
+	}
+	for _, el := range a.Elems {
+		s, ok := el.(StrV)
+		if !ok || s.Kind != skElem || s.List == nil {
+			return false
+		}
+	}
+	return true
+}
